@@ -3,6 +3,7 @@ EXTENDS Router
 MCElems == {Lit("a"), Lit("b"), Star, SS,
             Var(<<"s">>, <<Star>>), Var(<<"s">>, <<SS>>),
             Var(<<"s">>, <<Lit("a"), Star>>), Var(<<"s">>, <<Lit("a"), SS>>),
+            Var(<<"s">>, <<Lit("b"), Star>>),
             Var(<<"s">>, <<Star, Lit("b")>>),
             Var(<<"i">>, <<Star>>), Var(<<"n", "s">>, <<Star>>)}
 \* one symmetry-free choice: the first rule always belongs to M1
